@@ -3,7 +3,8 @@
    both range corners on the grid and the cell inside the hull of the range, and the history
    stacks only hold well-formed sheet entries.  One preservation lemma per operation; the
    operations whose preservation FAILS on the current code are exactly those of the decidable
-   classes [bad] of Selection.v (each refuted by a concrete history below). *)
+   classes [bad] of Selection.v (on_area_selecting, on_paste_styles; each refuted by a concrete
+   history below). *)
 From IronCalc Require Import Base.Prelude Base.Dec UserModel.Selection.
 
 (* ------------------------------------------------------------------ the invariant *)
@@ -276,31 +277,20 @@ Proof.
   repeat split; cbn; auto.
 Qed.
 
-Lemma delete_sheet_inv s i : inv s -> bad_delete s i = false -> inv (state_of (delete_sheet s i)).
+Lemma delete_sheet_inv s i : inv s -> inv (state_of (delete_sheet s i)).
 Proof.
-  intros Hi Hb. unfold delete_sheet. destruct (get_sheet (sheets s) i) as [sh|] eqn:E; cbn [state_of]; auto.
-  apply get_sheet_Some in E as [Hr _].
-  set (s1 := push s (EDeleteSheet i (sh_name sh) (sh_vis sh) (sh_geom sh))).
-  assert (H1 : inv s1) by (apply inv_push; [auto | exact I]).
-  assert (Hn : nsheets s1 = nsheets s) by reflexivity.
-  set (s2 := if (i =? nsheets s - 1) && (1 <? nsheets s) then with_sel s1 (nsheets s - 2) else s1).
-  assert (H2 : inv s2 /\ sheets s2 = sheets s /\ (i <> nsheets s - 1 -> sel s2 = sel s) /\ (i = nsheets s - 1 -> 1 < nsheets s -> sel s2 = nsheets s - 2)).
-  { subst s2. destruct ((i =? nsheets s - 1) && (1 <? nsheets s)) eqn:Ec; b2p.
-    - split; [split; [unfold nsheets in *; cbn; lia | apply winv_with_sel, inv_winv; auto] |].
-      split; [reflexivity|]. split; intros; [lia | reflexivity].
-    - split; [exact H1|]. split; [reflexivity|].
-      split; intros; [reflexivity | destruct Ec as [Ec|Ec]; b2p; lia]. }
-  destruct H2 as (H2 & Hsh & Hne & Heq).
-  destruct (m_delete_sheet (sheets s2) i) as [l| |] eqn:Ed; cbn [state_of]; auto.
-  apply m_delete_sheet_ok in Ed as (Hd1 & Hd0 & Hd2 & Hd3). rewrite Hsh in *.
-  destruct H2 as [Hs2 (Hf2 & Hu2 & Hr2)]. rewrite Hsh in Hf2.
-  split; [|repeat split; cbn; auto].
-  unfold nsheets in *. cbn. unfold bad_delete in Hb. unfold nsheets in Hb.
-  destruct (Z.eq_dec i (Z.of_nat (length (sheets s)) - 1)) as [e|ne].
-  - rewrite Heq by lia. lia.
-  - rewrite Hne by lia. destruct Hi as [Hsel _]. unfold nsheets in Hsel.
-    destruct (0 <=? i) eqn:Ea; destruct (i <? Z.of_nat (length (sheets s)) - 1) eqn:Eb;
-      destruct (sel s =? Z.of_nat (length (sheets s)) - 1) eqn:Ec; cbn in Hb; try discriminate; b2p; lia.
+  intros Hi. unfold delete_sheet. destruct (get_sheet (sheets s) i) as [sh|] eqn:E; cbn [state_of]; auto.
+  cbv zeta. destruct (m_delete_sheet (sheets s) i) as [l| |] eqn:Ed; cbn [state_of]; auto.
+  apply m_delete_sheet_ok in Ed as (Hd1 & Hd0 & Hd2 & Hd3).
+  destruct Hi as [Hs (Hf & Hu & Hr)]. unfold nsheets in *.
+  assert (Hw : winv (push (with_sheets s l) (EDeleteSheet i (sh_name sh) (sh_vis sh) (sh_geom sh)))).
+  { apply winv_push; [|exact I]. repeat split; cbn; auto. }
+  destruct ((i =? Z.of_nat (length (sheets s)) - 1) && (1 <? Z.of_nat (length (sheets s)))) eqn:Ec; cbn [state_of].
+  - b2p. split; [unfold nsheets; cbn; lia | apply winv_with_sel; auto].
+  - destruct ((Z.of_nat (length (sheets s)) <=? sel s + 1) && (0 <? sel s)) eqn:Ec2; cbn [state_of].
+    + b2p. split; [unfold nsheets; cbn; lia | apply winv_with_sel; auto].
+    + split; [|exact Hw]. unfold nsheets; cbn. b2p.
+      destruct Ec as [Ec|Ec]; destruct Ec2 as [Ec2|Ec2]; b2p; lia.
 Qed.
 
 Lemma rename_sheet_inv s i n : inv s -> inv (state_of (rename_sheet s i n)).
@@ -422,15 +412,9 @@ Proof.
     split; [unfold nsheets; cbn; lia | repeat split; cbn; auto].
 Qed.
 
-Definition redo_bad_entry (s : state) (e : entry) : bool :=
-  match e with
-  | EDeleteSheet idx _ _ _ => (idx =? 0) && (2 <=? nsheets s) && (sel s =? nsheets s - 1)
-  | _ => false
-  end.
-
-Lemma apply_redo_inv s e : inv s -> entry_ok e -> redo_bad_entry s e = false -> inv (state_of (apply_redo s e)).
+Lemma apply_redo_inv s e : inv s -> entry_ok e -> inv (state_of (apply_redo s e)).
 Proof.
-  intros Hi He Hb. pose proof Hi as [Hs (Hf & Hu & Hr)]. unfold nsheets in Hs.
+  intros Hi He. pose proof Hi as [Hs (Hf & Hu & Hr)]. unfold nsheets in Hs.
   destruct e as [idx n|idx n vis g|src new|idx old new|from to|idx nv ov| |shi l|shi l|shi l|shi l];
     cbn [apply_redo]; try (apply apply_lines_inv; auto); auto.
   - (* NewSheet *)
@@ -439,13 +423,8 @@ Proof.
     cbn. intro Hn. apply get_sheet_None in Hn. lia.
   - (* DeleteSheet *)
     apply lift_inv; auto. intros l E. apply m_delete_sheet_ok in E as (H1 & H0 & H2 & H3).
-    destruct (0 <? idx) eqn:Ei; b2p.
-    + apply set_selected_sheet_inv; [repeat split; cbn; auto|].
-      cbn. intro Hn. apply get_sheet_None in Hn. lia.
-    + cbn [state_of]. split; [|repeat split; cbn; auto].
-      unfold nsheets; cbn. cbn in Hb. unfold nsheets in Hb.
-      destruct (idx =? 0) eqn:Ea; destruct (2 <=? Z.of_nat (length (sheets s))) eqn:Eb2;
-        destruct (sel s =? Z.of_nat (length (sheets s)) - 1) eqn:Ec; cbn in Hb; try discriminate; b2p; lia.
+    apply set_selected_sheet_inv; [repeat split; cbn; auto|].
+    cbn. intro Hn. apply get_sheet_None in Hn. lia.
   - (* DuplicateSheet *)
     cbn in He. destruct He as [He1 He2]. subst new.
     destruct (m_duplicate (sheets s) src) as [l| |] eqn:E; cbn [state_of]; auto.
@@ -472,9 +451,9 @@ Proof.
   apply apply_undo_inv; auto. apply inv_with_hist; auto.
 Qed.
 
-Lemma redo_inv s : inv s -> bad_redo s = false -> inv (state_of (redo s)).
+Lemma redo_inv s : inv s -> inv (state_of (redo s)).
 Proof.
-  intros Hi Hb. unfold redo. unfold bad_redo in Hb. destruct (redo_st s) as [|e r] eqn:E; cbn [state_of]; auto.
+  intros Hi. unfold redo. destruct (redo_st s) as [|e r] eqn:E; cbn [state_of]; auto.
   pose proof Hi as [Hs (Hf & Hu & Hr)]. rewrite E in Hr. inversion Hr; subst.
   apply apply_redo_inv; auto. apply inv_with_hist; auto.
 Qed.
@@ -605,29 +584,28 @@ Proof.
   destruct d; unfold arrow_view; dall; cbn [vres_ok]; auto; apply single_ok; vr; lia.
 Qed.
 
-Lemma page_down_view_ok g wh v :
-  view_ok v ->
-  (forall v', page_down_view g wh v = VOk v' -> v_top v' + (v_row v - v_top v) <= LAST_ROW) ->
-  vres_ok (page_down_view g wh v).
+Lemma clamp_row_valid x : valid_row (clamp_row x) = true.
 Proof.
-  intros Hv Hb. pose proof Hv as Hv'. unfold view_ok in Hv'. revert Hb. unfold page_down_view.
+  unfold clamp_row, valid_row. destruct (x <? 1) eqn:E1; [reflexivity|].
+  destruct (LAST_ROW <? x) eqn:E2; [reflexivity|]. b2p.
+  apply andb_true_iff; split; apply Z.leb_le; lia.
+Qed.
+
+Lemma page_down_view_ok g wh v : view_ok v -> vres_ok (page_down_view g wh v).
+Proof.
+  intros Hv. pose proof Hv as Hv'. unfold view_ok in Hv'. unfold page_down_view.
   destruct (row_height g (v_top v)) as [h0| |]; cbn [vres_ok]; auto.
   destruct (grow_down _ _ _ _ _) as [last| |] eqn:E; cbn [vres_ok]; auto.
   destruct (negb (valid_row last)) eqn:El; cbn [vres_ok]; auto.
-  intro Hb. specialize (Hb _ eq_refl). cbn in Hb. apply grow_down_ge in E.
-  apply single_ok; vr; lia.
+  cbv zeta. apply single_ok; [apply clamp_row_valid | vr; lia].
 Qed.
 
-Lemma page_up_view_ok g wh v :
-  view_ok v ->
-  (forall v', page_up_view g wh v = VOk v' -> 1 <= v_top v' + (v_row v - v_top v)) ->
-  vres_ok (page_up_view g wh v).
+Lemma page_up_view_ok g wh v : view_ok v -> vres_ok (page_up_view g wh v).
 Proof.
-  intros Hv Hb. pose proof Hv as Hv'. unfold view_ok in Hv'. revert Hb. unfold page_up_view.
+  intros Hv. pose proof Hv as Hv'. unfold view_ok in Hv'. unfold page_up_view.
   destruct (row_height g (v_top v)) as [h0| |]; cbn [vres_ok]; auto.
   destruct (grow_up _ _ _ _ _) as [first| |] eqn:E; cbn [vres_ok]; auto.
-  intro Hb. specialize (Hb _ eq_refl). cbn in Hb. apply grow_up_le in E.
-  apply single_ok; vr; lia.
+  cbv zeta. apply single_ok; [apply clamp_row_valid | vr; lia].
 Qed.
 
 Lemma area_selecting_view_ok g ww wh tr tc v :
@@ -697,27 +675,7 @@ Proof.
   intros v' E. eapply v_set_top_left_ok; eauto.
 Qed.
 
-(* the view-level premises of page down / up / area selecting, from the negated class *)
-Lemma page_down_inv s : inv s -> bad_page_down s = false ->
-  inv (state_of (on_sel_view s false (fun sh => page_down_view (sh_geom sh) (win_h s) (sh_view sh)))).
-Proof.
-  intros Hi Hb. unfold on_sel_view. unfold bad_page_down in Hb.
-  destruct (get_sheet (sheets s) (sel s)) as [sh|] eqn:E; cbn [state_of]; auto.
-  assert (Hsh : sheet_ok sh) by (eapply sheet_ok_in; eauto; apply inv_winv; auto).
-  assert (Hv : vres_ok (page_down_view (sh_geom sh) (win_h s) (sh_view sh))).
-  { apply page_down_view_ok; auto. intros v' Ev. rewrite Ev in Hb. b2p. lia. }
-  destruct (page_down_view _ _ _) as [v|v|]; cbn [state_of]; auto; apply inv_put_sheet; auto.
-Qed.
-Lemma page_up_inv s : inv s -> bad_page_up s = false ->
-  inv (state_of (on_sel_view s false (fun sh => page_up_view (sh_geom sh) (win_h s) (sh_view sh)))).
-Proof.
-  intros Hi Hb. unfold on_sel_view. unfold bad_page_up in Hb.
-  destruct (get_sheet (sheets s) (sel s)) as [sh|] eqn:E; cbn [state_of]; auto.
-  assert (Hsh : sheet_ok sh) by (eapply sheet_ok_in; eauto; apply inv_winv; auto).
-  assert (Hv : vres_ok (page_up_view (sh_geom sh) (win_h s) (sh_view sh))).
-  { apply page_up_view_ok; auto. intros v' Ev. rewrite Ev in Hb. b2p. lia. }
-  destruct (page_up_view _ _ _) as [v|v|]; cbn [state_of]; auto; apply inv_put_sheet; auto.
-Qed.
+(* the view-level premises of area selecting, from the negated class *)
 Lemma area_selecting_inv s r c : inv s -> bad_area s r c = false ->
   inv (state_of (on_sel_view s true (fun sh => area_selecting_view (sh_geom sh) (win_w s) (win_h s) r c (sh_view sh)))).
 Proof.
@@ -793,8 +751,8 @@ Proof.
   - cbn [state_of]. apply inv_with_win; auto.
   - cbn [state_of]. apply inv_with_win; auto.
   - apply on_sel_view_inv; auto. intros sh Hsh. apply arrow_view_ok; auto.
-  - apply page_down_inv; auto.
-  - apply page_up_inv; auto.
+  - apply on_sel_view_inv; auto. intros sh Hsh. apply page_down_view_ok; auto.
+  - apply on_sel_view_inv; auto. intros sh Hsh. apply page_up_view_ok; auto.
   - apply area_selecting_inv; auto.
   - apply on_sel_view_inv; auto. intros sh Hsh. apply nav_edge_view_ok; auto.
   - apply new_sheet_inv; auto.
@@ -864,10 +822,6 @@ Theorem C28_partial_any_workbook : forall l ops,
 Proof. intros l ops Hn Hf Ha. apply inv_sel_ok. apply run_inv; auto. apply mk_state_inv; auto. Qed.
 
 (* the witnesses (each replayed on the implementation by harness/c28) *)
-Definition w_delete : list op := [ONewSheet; ONewSheet; ODelete 0].
-Definition w_redo : list op := [ONewSheet; OSetSheet 0; ODelete 0; OUndo; OSetSheet 1; ORedo].
-Definition w_page_down : list op := [OSetCell 1048576 1; OPageDown].
-Definition w_page_up : list op := [OTopLeft 100 1; OPageUp].
 Definition w_area_offgrid : list op := [OAreaSel 0 (-5)].
 Definition w_area_anchor : list op := [OSetCell 5 5; OSetRange 1 1 5 5; OAreaSel 2 2].
 Definition w_paste : list op := [OSetRange 5 5 1 1; OPaste 1 1].
@@ -875,14 +829,6 @@ Definition w_paste : list op := [OSetRange 5 5 1 1; OPaste 1 1].
 Lemma refute ops : sel_ok_b (run init ops) = false -> ~ sel_ok (run init ops).
 Proof. intros H Hs. apply sel_ok_b_iff in Hs. congruence. Qed.
 
-Theorem refuted_delete : ~ sel_ok (run init w_delete).
-Proof. apply refute. vm_compute. reflexivity. Qed.
-Theorem refuted_redo : ~ sel_ok (run init w_redo).
-Proof. apply refute. vm_compute. reflexivity. Qed.
-Theorem refuted_page_down : ~ sel_ok (run init w_page_down).
-Proof. apply refute. vm_compute. reflexivity. Qed.
-Theorem refuted_page_up : ~ sel_ok (run init w_page_up).
-Proof. apply refute. vm_compute. reflexivity. Qed.
 Theorem refuted_area_offgrid : ~ sel_ok (run init w_area_offgrid).
 Proof. apply refute. vm_compute. reflexivity. Qed.
 Theorem refuted_area_anchor : ~ sel_ok (run init w_area_anchor).
@@ -891,13 +837,22 @@ Theorem refuted_paste : ~ sel_ok (run init w_paste).
 Proof. apply refute. vm_compute. reflexivity. Qed.
 
 Theorem C28_refuted_thm : ~ C28_statement.
-Proof. intro H. exact (refuted_delete (H w_delete)). Qed.
+Proof. intro H. exact (refuted_area_offgrid (H w_area_offgrid)). Qed.
 
 (* each witness meets exactly one class, at its last step (the classes are independent) *)
 Definition only_last_bad (ops : list op) : bool :=
   avoids init (removelast ops) && bad (run init (removelast ops)) (last ops OUndo).
-Lemma witnesses_tight :
-  forallb only_last_bad [w_delete; w_redo; w_page_down; w_page_up; w_area_offgrid; w_area_anchor; w_paste] = true.
+Lemma witnesses_tight : forallb only_last_bad [w_area_offgrid; w_area_anchor; w_paste] = true.
+Proof. vm_compute. reflexivity. Qed.
+
+(* the histories that refuted the property before the repairs of delete_sheet (422225e), redo of
+   DeleteSheet (ccc73d8) and page down / up (0ee396a) now satisfy it and meet no class *)
+Definition w_delete : list op := [ONewSheet; ONewSheet; ODelete 0].
+Definition w_redo : list op := [ONewSheet; OSetSheet 0; ODelete 0; OUndo; OSetSheet 1; ORedo].
+Definition w_page_down : list op := [OSetCell 1048576 1; OPageDown].
+Definition w_page_up : list op := [OTopLeft 100 1; OPageUp].
+Lemma repaired_witnesses :
+  forallb (fun ops => avoids init ops && sel_ok_b (run init ops)) [w_delete; w_redo; w_page_down; w_page_up] = true.
 Proof. vm_compute. reflexivity. Qed.
 
 (* non-vacuity: a history through every kind of operation that avoids the classes *)
@@ -922,40 +877,17 @@ Proof. intros Hi. repeat split; intros; apply step_inv; auto. Qed.
 Lemma navigation_inv s : inv s ->
   (forall d, inv (step s (OArrow d))) /\
   (forall k, inv (step s (OExpand k))) /\
-  (forall d, inv (step s (ONavEdge d))).
+  (forall d, inv (step s (ONavEdge d))) /\
+  inv (step s OPageDown) /\ inv (step s OPageUp).
 Proof. intros Hi. repeat split; intros; apply step_inv; auto. Qed.
 
 Lemma sheet_operations_inv s : inv s ->
-  inv (step s ONewSheet) /\ (forall i, inv (step s (ODuplicate i))) /\ (forall i j, inv (step s (OMove i j))) /\
+  inv (step s ONewSheet) /\ (forall i, inv (step s (ODuplicate i))) /\ (forall i, inv (step s (ODelete i))) /\
+  (forall i j, inv (step s (OMove i j))) /\
   (forall i, inv (step s (OHide i))) /\ (forall i, inv (step s (OUnhide i))) /\
-  (forall i n, inv (step s (ORename i n))) /\ inv (step s OUndo) /\
+  (forall i n, inv (step s (ORename i n))) /\ inv (step s OUndo) /\ inv (step s ORedo) /\
   (forall sh a b h, inv (step s (ORowsHidden sh a b h))) /\ (forall sh a b h, inv (step s (OColsHidden sh a b h))).
 Proof. intros Hi. repeat split; intros; apply step_inv; auto. Qed.
-
-(* ------------------------------------------------------------------ the delete class is exact *)
-
-Lemma get_sheet_in l i : 0 <= i < Z.of_nat (length l) -> exists sh, get_sheet l i = Some sh.
-Proof.
-  intros H. unfold get_sheet. destruct (i <? 0) eqn:E; b2p; [lia|].
-  destruct (nth_error l (Z.to_nat i)) eqn:En; eauto. apply nth_error_None in En. lia.
-Qed.
-Lemma get_sheet_out l i : Z.of_nat (length l) <= i -> get_sheet l i = None.
-Proof. intros H. unfold get_sheet. destruct (i <? 0) eqn:E; auto. apply nth_error_None. lia. Qed.
-
-Lemma bad_delete_breaks s i : inv s -> bad_delete s i = true -> ~ sel_ok (step s (ODelete i)).
-Proof.
-  intros [Hs _] Hb. unfold bad_delete in Hb. b2p. unfold nsheets in *.
-  unfold step; cbn [step_r]. unfold delete_sheet.
-  destruct (get_sheet_in (sheets s) i ltac:(lia)) as [sh E]. rewrite E. cbv zeta.
-  assert (Hc : (i =? nsheets s - 1) && (1 <? nsheets s) = false).
-  { unfold nsheets. apply andb_false_iff; left; apply Z.eqb_neq; lia. }
-  rewrite Hc. unfold m_delete_sheet. cbn [sheets push with_hist].
-  destruct (Z.of_nat (length (sheets s)) =? 1) eqn:E1; b2p; [lia|].
-  destruct ((i <? 0) || (Z.of_nat (length (sheets s)) <=? i)) eqn:E2; [b2p; destruct E2; b2p; lia|].
-  cbn [state_of]. intros (sh' & Eg & _). cbn in Eg.
-  rewrite get_sheet_out in Eg; [discriminate|].
-  assert (Hl := length_remove_at (Z.to_nat i) (sheets s) ltac:(lia)). lia.
-Qed.
 
 (* ------------------------------------------------------------------ fuel *)
 
